@@ -103,9 +103,15 @@ def main():
                     if key != f["key"]:
                         for e in lst:
                             ctx.fail(key, e["detail"], e["case"])
+        per_case = getattr(mod, "SCRATCH_PER_CASE", False)
+        del ctx._case_dirs[:]
         for case in mod.cases(ctx):
             ctx.evaluations += 1
             _run_one(mod, ctx, case)
+            if per_case:
+                ctx.end_case()
+            else:
+                del ctx._case_dirs[:]
         if hasattr(mod, "finish"):
             mod.finish(ctx)
     except HarnessProblem as e:
